@@ -2,6 +2,7 @@ package main
 
 import (
 	"fmt"
+	"strings"
 	"go/ast"
 	"go/token"
 	"go/types"
@@ -794,5 +795,16 @@ func (fc *FnCtx) runDefers()         {}
 func (fc *FnCtx) runDefersAtReturn() {}
 
 func (fc *FnCtx) goInstr(x *ssa.Go) {
+	if fc.c != nil {
+		for _, n := range fc.c.Notes {
+			if strings.HasPrefix(n, "allow-go") {
+				// the spawned goroutine is assumed not to interfere with this function's
+				// state (stated in the contract); its effects are over-approximated
+				fc.usedAssumed[fc.name+": "+n] = true
+				fc.havocAll("go")
+				return
+			}
+		}
+	}
 	fc.unsupported("go statement")
 }
